@@ -2,7 +2,7 @@
 (* code -> spec for C19.  TRACE_FILE holds a JSON array of traces recorded    *)
 (* from real cogent3 writes under fault injection (harness/faults_C19.py):    *)
 (*   [cfg |-> name of the configuration that transcribes the writer,          *)
-(*    pre |-> "absent" | "Old",                                               *)
+(*    pre |-> "absent" | "Old", name |-> class of the destination file name,  *)
 (*    events |-> << [call |-> c, kind |-> "call"|"fault"|"interrupt"|"kill",  *)
 (*                   dest |-> d, tmp |-> "absent" | "present"] ... >>,        *)
 (*    end |-> [how |-> h, dest |-> d, tmp |-> t]]                             *)
@@ -17,7 +17,7 @@ EXTENDS AtomicWrite, TLCExt
 Traces == JsonDeserialize(IOEnv.TRACE_FILE)
 
 VARIABLES tid, l
-tvars == <<cfg, pre, dest, tmp, pc, how, fcall, exc, tid, l>>
+tvars == <<cfg, name, pre, dest, tmp, pc, how, fcall, exc, tid, l>>
 
 Coarse(t) == IF t = "absent" THEN "absent" ELSE "present"
 ConfigNamed(n) == CHOOSE c \in AllConfigs : c.name = n
@@ -25,7 +25,7 @@ Tr == Traces[tid]
 
 TraceInit ==
     /\ tid \in 1..Len(Traces) /\ l = 1
-    /\ cfg = ConfigNamed(Traces[tid].cfg) /\ pre = Traces[tid].pre
+    /\ cfg = ConfigNamed(Traces[tid].cfg) /\ pre = Traces[tid].pre /\ name = Traces[tid].name
     /\ dest = pre /\ tmp = "absent" /\ pc = "mkdtemp"
     /\ how = "running" /\ fcall = "none" /\ exc = "no"
 
@@ -35,7 +35,9 @@ CallStep ==
     /\ l <= Len(Tr.events)
     /\ LET e == Tr.events[l] IN
          /\ Sees(e)
-         /\ CASE e.kind = "call"  -> CallT(e.call)
+         /\ CASE e.kind = "call"  -> \/ CallT(e.call)
+                                     \* the call failed by itself: the staged name is not usable for this destination name
+                                     \/ (StagedNameUnusable /\ e.call = "open_tmp" /\ FaultT("open_tmp"))
               [] e.kind = "fault" -> FaultT(e.call)
               [] e.kind = "interrupt" -> InterruptT(e.call)
               [] e.kind = "kill"  -> CrashT /\ e.call \in NextCall(pc)
@@ -49,7 +51,7 @@ Finish ==
     /\ pc = "done" /\ how = Tr.end.how /\ Sees(Tr.end)
     /\ PrintT(<<"TRACE-OK", tid>>)
     /\ l' = l + 1
-    /\ UNCHANGED <<cfg, pre, dest, tmp, pc, how, fcall, exc, tid>>
+    /\ UNCHANGED <<cfg, name, pre, dest, tmp, pc, how, fcall, exc, tid>>
 
 TraceNext == CallStep \/ SilentStep \/ Finish
 TraceSpec == TraceInit /\ [][TraceNext]_tvars
